@@ -193,7 +193,12 @@ def run_mv(rep, tier, seed, progs):
     if progs is None:
         r = C.rng(seed, "c19mv")
         big = tier == "thorough"
-        progs = [["objc %d %d %d %d %d %d %d %d" % (r.choice([2, 3, 4]), r.choice([1, 2, 3]), r.choice([1500, 3000] if not big else [5000, 15000]), r.choice([1, 1, 2, 3]),
+        progs = []
+        cp = os.path.join(C.VERIF, "corpus", "C19mv")
+        if os.path.isdir(cp):
+            for f in sorted(os.listdir(cp)):
+                progs.append([l.rstrip("\n") for l in open(os.path.join(cp, f)) if l.strip() and not l.startswith("#")] )
+        progs += [["objc %d %d %d %d %d %d %d %d" % (r.choice([2, 3, 4]), r.choice([1, 2, 3]), r.choice([1500, 3000] if not big else [5000, 15000]), r.choice([1, 1, 2, 3]),
                                                    r.choice([50, 300, 2000]), r.choice([10, 30, 60]), r.choice([0, 10, 30]), r.choice([0, 10, 30]))]
                  for _ in range(60 if big else 12)]
     shards = [progs[i::4] for i in range(4)]
